@@ -23,6 +23,7 @@ func init() {
 			{ID: "C16-R6", Doc: "a Func records the location of the user's call (runtime.Caller depth matches the distance from the API)", Run: c16r6},
 			{ID: "C16-R7", Doc: "registry comparison starts at the first Func", Run: c16r7},
 			{ID: "C16-R8", Doc: "GobEncode sends every argument exactly once, as given", Run: c16r8},
+			{ID: "C16-R9", Doc: "every travelling field of a decoded invocation comes from the stream (GobDecode assigns none of them)", Run: c16r9},
 		},
 	})
 }
